@@ -121,17 +121,16 @@ func (u *User) GetArbitrary() map[string]string {
 	return u.Arbitrary
 }
 
-// PutArbitrary keeps every key it is handed except the password fields (the
-// consumer's documented duty is to pick keys; a non-whitelisted field reaching
-// storage is therefore observable in Arbitrary). "email" also sets Email.
+// PutArbitrary keeps every key it is handed, verbatim, like a consumer that
+// stores the registration extras in a JSON column (the repository's own
+// mocks.User does the same): whatever the library passes here reaches
+// storage, so a field that should not be passed is observable. "email" also
+// sets Email.
 func (u *User) PutArbitrary(m map[string]string) {
 	if u.Arbitrary == nil {
 		u.Arbitrary = map[string]string{}
 	}
 	for k, v := range m {
-		if k == "password" || k == "confirm_password" {
-			continue
-		}
 		if k == "email" {
 			u.Email = v
 			continue
